@@ -50,6 +50,10 @@ type Block struct {
 	Abstract bool // spec function without a body (uninterpreted)
 	Axiom   bool  // lemma that is assumed, not proved
 	Ghosts  [][2]string   // universally quantified postcondition variables (name, type)
+	// Witnesses are existentially quantified postcondition variables: the function's proof
+	// supplies the value of a local expression at each return; callers get an arbitrary value
+	// constrained only by the ensures clauses. (name, type, Go expression)
+	Witnesses [][3]string
 	decl    *ast.FuncDecl // parsed header
 }
 
@@ -62,7 +66,7 @@ func (b *Block) Key() string {
 
 func (b *Block) QName() string { return b.PkgName + "." + b.Key() }
 
-var clauseKW = []string{"requires", "ensures", "loop", "split", "opaque", "prop", "decreases", "modifies", "assume", "inline", "nooverlay", "unsafe-ok", "havoc", "using", "trusted", "known", "reveal", "forall", "use", "inline"}
+var clauseKW = []string{"requires", "ensures", "loop", "split", "opaque", "prop", "decreases", "modifies", "assume", "inline", "nooverlay", "unsafe-ok", "havoc", "using", "trusted", "known", "reveal", "forall", "use", "inline", "witness"}
 var blockKW = []string{"opaque spec func", "abstract func", "spec func", "lemma", "axiom", "assume func", "func", "assume-dep", "iface", "ghost"}
 
 func startsWithKW(s string, kws []string) string {
@@ -199,6 +203,14 @@ func ParseContractFile(path, pkgPath string) ([]*Block, error) {
 					return nil, fmt.Errorf("%s:%d: forall clause wants 'name Type'", path, ln)
 				}
 				cur.Ghosts = append(cur.Ghosts, [2]string{f[0], f[1]})
+			case "witness":
+				// witness name Type = expr
+				eq := strings.Index(rest, "=")
+				f := strings.Fields(rest[:max(eq, 0)])
+				if eq < 0 || len(f) != 2 {
+					return nil, fmt.Errorf("%s:%d: witness clause wants 'name Type = expr'", path, ln)
+				}
+				cur.Witnesses = append(cur.Witnesses, [3]string{f[0], f[1], strings.TrimSpace(rest[eq+1:])})
 			case "prop":
 				for _, p := range strings.FieldsFunc(rest, func(r rune) bool { return r == ',' || r == ' ' }) {
 					cur.Props = append(cur.Props, p)
@@ -240,7 +252,8 @@ func ParseContractFile(path, pkgPath string) ([]*Block, error) {
 				// use [forall x T in lo..hi ::] lemmaName(args)
 				txt := strings.TrimSpace(c.Text)
 				pre := ""
-				if idx := strings.Index(txt, "::"); idx >= 0 && (strings.HasPrefix(txt, "forall ")) {
+				// any number of quantifier prefixes: forall x T [in a..b] :: ... lemma(args)
+				if idx := strings.LastIndex(txt, "::"); idx >= 0 && strings.HasPrefix(txt, "forall ") {
 					pre = txt[:idx+2] + " "
 					txt = strings.TrimSpace(txt[idx+2:])
 				}
@@ -570,6 +583,9 @@ func existsRange[T specInteger](lo, hi T, f func(T) bool) bool {
 
 func old[T any](x T) T { return x }
 
+// rangeidx(): the hidden index of the enclosing range loop (verifier only).
+func rangeidx() int { panic("rangeidx is not executable") }
+
 // loopentry(e): the value of e when the enclosing loop was entered (verifier only).
 func loopentry[T any](x T) T { return x }
 
@@ -688,6 +704,24 @@ func GenOverlay(pkgName string, blocks []*Block, extraImports []string) string {
 		sb.WriteString(")\n")
 	}
 	sb.WriteString(preludeSrc)
+	// ghost variables (universally quantified over the whole contract of their block)
+	seenGhost := map[string]string{}
+	for _, b := range blocks {
+		all := append([][2]string(nil), b.Ghosts...)
+		for _, w := range b.Witnesses {
+			all = append(all, [2]string{w[0], w[1]})
+		}
+		for _, g := range all {
+			if t, dup := seenGhost[g[0]]; dup {
+				if t != g[1] {
+					fmt.Fprintf(&sb, "\n// ERROR: ghost %s declared with types %s and %s\nvar _ = undefinedGhostConflict_%s\n", g[0], t, g[1], g[0])
+				}
+				continue
+			}
+			seenGhost[g[0]] = g[1]
+			fmt.Fprintf(&sb, "\nvar %s %s // ghost\n", g[0], g[1])
+		}
+	}
 	for _, b := range blocks {
 		recv, params, results := b.headerParts()
 		switch b.Kind {
@@ -785,12 +819,6 @@ func GenOverlay(pkgName string, blocks []*Block, extraImports []string) string {
 							all += ", "
 						}
 						all += results
-					}
-					for _, g := range b.Ghosts {
-						if all != "" {
-							all += ", "
-						}
-						all += g[0] + " " + g[1]
 					}
 					fmt.Fprintf(&sb, "\nfunc %s %s(%s) bool {\n\treturn %s\n}\n", recv, c.Name, all, c.Go)
 				}
